@@ -66,3 +66,40 @@ CHECKS["C13"] = dict(
         dict(pkg="server", name="C13_lockdata8", bound="as C13_lockdata with frames of 2..8 bytes", flags=["-witness", "20000"], reach=["end"], allow=["unsupported"], thorough_only=True),
     ],
 )
+
+CHECKS["C10"] = dict(
+    explanation="bounded symbolic execution of LockDB.Lock/UnLock/doExpried on a database whose role is any non-leader state",
+    assumptions=[],
+    harnesses=[
+        dict(pkg="server", name="C10_refuse", bound="state with <=2 holders and <=1 queued request built as leader, then role in {init, follower, sync, config, vote}; one LOCK/UNLOCK with symbolic terms (core profile) without the from-aof flag", flags=["-witness", "50"], reach=["end"]),
+        dict(pkg="server", name="C10_defer", bound="one replicated hold (E=3 s) on a follower, clock advanced 10 / 200 / 303 s through the real sweeps", flags=["-witness", "1"], reach=["end", "kept"]),
+        dict(pkg="server", name="C10_apply", bound="1..3 from-aof LOCKs (symbolic Count/Rcount/minute/unlimited flags) and an optional from-aof UNLOCK applied on a leader and on a follower", flags=["-witness", "2"], reach=["end"]),
+    ],
+)
+
+CHECKS["C05"] = dict(
+    explanation="bounded symbolic execution; the server clock (LockDB.currentTime) is driven by the harness and every elapsed second runs the real sweep bodies checkTimeTimeOut / checkTimeExpried",
+    assumptions=["server time = LockDB.currentTime; a request arriving during second s sees currentTime == s; sweeper goroutine latency is outside"],
+    harnesses=[
+        dict(pkg="server", name="C05_deadline", bound="every 16-bit T, seconds and minute flag (symbolic); T = 0 immediate TIMEOUT", flags=["-witness", "1"], reach=["end", "zero"]),
+        dict(pkg="server", name="C05_sim", bound="T in 1..12 s (crosses the 8 re-checks that move an entry to the long-wait table), a second waiter with T2 in 1..3, ticks 1..T+3; variants: undisturbed / holder unlocks at any tick before the deadline / holder unlocks after the timeout", flags=["-witness", "20"], reach=["end", "granted-before-timeout", "not-granted-after-timeout"]),
+    ],
+)
+CHECKS["C06"] = dict(
+    explanation="as C05, for holds: AddLock / UpdateLockedLock deadline formulas symbolically, expiry simulation through the real sweeps",
+    assumptions=["server time = LockDB.currentTime"],
+    harnesses=[
+        dict(pkg="server", name="C06_deadline", bound="every 16-bit E != 0, seconds / minute / unlimited flags (symbolic)", flags=["-witness", "1"], reach=["end", "unlimited"]),
+        dict(pkg="server", name="C06_sim", bound="E in 1..12 s, ticks 1..E+15; variants: undisturbed / re-entrant re-lock at any tick before the deadline restarts the period / unlimited flag; a queued request must be served at the expiry tick", flags=["-witness", "10"], reach=["end", "relocked"]),
+        dict(pkg="server", name="C06_update", bound="every E1, E2 != 0 with seconds/minute flags, update issued 0 or 1 s after the grant: deadline restarted from now or ignored, ignored only within one unit", flags=["-witness", "1", "-timeout", "5000"], reach=["end", "restarted", "ignored"]),
+    ],
+)
+
+CHECKS["C08"] = dict(
+    explanation="bounded symbolic execution of the real loader (AofFile.Open/ReadHeader/ReadLock, AofLock.Decode, LoadAofFiles, stdlib bufio.Reader) over an in-memory file model; record bytes symbolic, cut offset forked over every byte",
+    assumptions=["os.File.Read returns min(len(buf), remaining) bytes (full reads); os.File.Write appends whole buffers"],
+    harnesses=[
+        dict(pkg="server", name="C08_cut", bound="header + 1..3 records of 64 symbolic bytes (no attached values), cut at every byte offset 0..len", flags=["-witness", "20"], reach=["end"]),
+        dict(pkg="server", name="C08_append", bound="header + 2 records cut at every offset, then reopen for append, write one symbolic record, flush, reload", flags=["-witness", "100"], reach=["end"]),
+    ],
+)
